@@ -99,6 +99,11 @@ pub fn scenario<C: Coll>(c: &mut Ctx, _idx: u64, rng: &mut Rng, name: &str) {
             // batch churn: remove the b oldest keys, then insert b fresh ones through ONE Extend call (which reserves for the
             // batch while the table still has some growth budget left: neither "full" nor "empty")
             let b = (n / 4).max(1).min(64);
+            // one batch moves b keys: spread the batches so that `steps` stays the number of element operations
+            if step % b != 0 {
+                c.evaluations -= 1;
+                continue;
+            }
             while live.len() + b > n {
                 let id = live.pop_front().unwrap();
                 if !col.del(id) {
